@@ -4,7 +4,7 @@
     Err {UseAfterFree, DoubleFree, Unreachable, ExpectFailed, Panic, Overflow}; "no memory
     error, no internal panic, no overflow on any call sequence" is therefore the statement
     that a run never returns Err. *)
-From MM Require Import Unsync.UInvDefs Unsync.UInv Sketch.SketchSpec Sketch.SketchProofs Sync.SInvDefs Sync.SInvWrites Sync.SInvTop.
+From MM Require Import Unsync.UInvDefs Unsync.UInv Sketch.SketchSpec Sketch.SketchProofs Sync.SInvDefs Sync.SInvWrites Sync.SInvTop Deque.DequePtr Deque.DequeAbs Deque.DequeRefine.
 
 (** single-threaded cache: every history runs to completion, in a well-formed state
     (deque nodes and map entries in bijection, no dangling node pointer) *)
@@ -43,6 +43,33 @@ Theorem C08_sync_step_safe : forall c r o, scfg_ok c -> SInv c (sr_state r) -> s
     sr_now r <= sr_now r'.
 Proof. exact sstep_safe. Qed.
 
+(** the intrusive list itself (common/deque.rs), modelled at POINTER level (heap of nodes with
+    next/prev, head/tail/len/cursor; every dereference checks liveness; Box::from_raw frees):
+    for every operation sequence within the `unsafe` contract (handles passed to move_to_back /
+    unlink_and_drop / contains / next_node_ptr are members) no dereference of a dead node, no
+    double free, no unreachable!(), no len underflow ever happens, the representation invariant
+    (mutual links, head/tail/len, cursor on a member) is kept and each operation refines the list
+    operation; dropping the deque frees every node exactly once; and use outside the contract is
+    detected as use-after-free by the model *)
+Theorem C08_deque_run_safe : forall ops, contract_run [] ops ->
+  exists d l, dq_run pd_empty ops = Ok d /\ Rep d l.
+Proof. exact dq_run_safe. Qed.
+Theorem C08_deque_step_refines : forall d l o, Rep d l -> in_contract l o ->
+  exists d' out l', dq_step d o = Ok (d', out) /\ Rep d' l' /\ abs_step (abs_of d l) o = (abs_of d' l', out).
+Proof. exact dq_step_refines. Qed.
+Theorem C08_deque_drop_frees_all : forall d l, Rep d l -> exists d', dq_drop d = Ok d' /\ d_heap d' = ∅.
+Proof. exact dq_drop_frees_all. Qed.
+Theorem C08_deque_contains_exact : forall d l, Rep d l -> forall h, h ∈ l.*1 -> dq_step d (DContains h) = Ok (d, DOBool true).
+Proof. exact contains_exact. Qed.
+Theorem C08_deque_use_after_free_detected : forall d l h, Rep d l -> h ∉ l.*1 ->
+  dq_step d (DMoveToBack h) = Err UseAfterFree /\ dq_step d (DUnlinkDrop h) = Err UseAfterFree.
+Proof. exact use_after_free_detected. Qed.
+
+Print Assumptions C08_deque_run_safe.
+Print Assumptions C08_deque_step_refines.
+Print Assumptions C08_deque_drop_frees_all.
+Print Assumptions C08_deque_contains_exact.
+Print Assumptions C08_deque_use_after_free_detected.
 Print Assumptions C08_sync_safe.
 Print Assumptions C08_sync_step_safe.
 Print Assumptions C08_unsync_safe.
